@@ -66,9 +66,22 @@ def fold_replies(L, repo):
             if rc == "raise":
                 raise Raised("ValueError")
             return rc
-        e = Ev(repo, ci.mod, env={"self.rsp_delay_ms": 0}, self_cls=ci)
+        env0 = {}
+        for c_ in reversed(repo.mro(ci)):
+            i_ = c_.methods.get("__init__")
+            if i_ is None:
+                continue
+            for st_ in ast.walk(i_):
+                # constant initial values of the interface object (flags, counters, "last seen" memories)
+                if isinstance(st_, ast.Assign) and len(st_.targets) == 1 and canon(st_.targets[0]).startswith("self.") \
+                        and isinstance(st_.value, ast.Constant):
+                    env0[canon(st_.targets[0])] = st_.value.value
+        env0.update({"self.rsp_delay_ms": 0, "self.remote_addr": "10.0.0.9", "self.remote_port": 5555})
+        e = Ev(repo, ci.mod, env=env0, self_cls=ci)
+        e.ignore_calls = ("log.", "logging.")
         e.hooks = {"self.sock.recvfrom": lambda a, data=data: (data, PEER), "self.parse_cmd": parse,
-                   "self.sock.sendto": lambda a: sent.append(tuple(a)), "time.sleep": lambda a: None}
+                   "self.sock.sendto": lambda a: sent.append(tuple(a)), "time.sleep": lambda a: None,
+                   "self.desc_link": lambda a: "L:0.0.0.0:5701 -> R:10.0.0.9:5555"}
         try:
             e.run_block(fd.body)
         except Unknown:
@@ -172,6 +185,8 @@ def r1_one_reply(L, repo, force_shape=False):
         else:
             rows_check()
         return DATA, REMOTE
+    if other:
+        raise AnalysisError("handle_rx tests conditions the reply-count table does not know (%s) and the receive path does not fold" % ", ".join(other)[:120])
     L.require("C05.R1", FC, fn, "atoms of the receive path (signature test, tuple test, exception oracles)",
               (1, 1, []), (len(ver), len(tup), other))
     if len(ver) != 1 or len(tup) != 1 or other:
@@ -626,6 +641,14 @@ def r4_trxcon_sibling(L, repo, got):
                         verbs.append(v2.get("value", "").strip('"'))
                 if not verbs:
                     raise AnalysisError("trx_ctrl_cmd: helper %s() has no caller" % fname)
+            elif kind(va) == "ArraySubscriptExpr" and kind(strip(kids(va)[0], casts=True)) == "DeclRefExpr":
+                # the verb is taken from a constant table of verbs: every entry of the table may be emitted
+                tname = ctext(strip(kids(va)[0], casts=True))
+                decl = [d_ for d_ in walk(tu.body(f)) if kind(d_) == "VarDecl" and d_.get("name") == tname]
+                decl += [d_ for d_ in tu.ast.get("inner", []) if kind(d_) == "VarDecl" and d_.get("name") == tname] if hasattr(tu, "ast") else []
+                verbs = [x.get("value", "").strip('"') for d_ in decl[:1] for x in walk(d_) if kind(x) == "StringLiteral"]
+                if not verbs or not decl or "const" not in decl[0].get("type", {}).get("qualType", ""):
+                    raise AnalysisError("trx_ctrl_cmd: verb table `%s` is not a constant table of literals" % tname)
             else:
                 raise AnalysisError("trx_ctrl_cmd: verb argument unclassifiable: %s" % ctext(va))
             for verb in verbs:
